@@ -93,7 +93,8 @@ _orig_write = nodeio.write_smtlib_to_file
 
 
 def write_smtlib_to_file(filename, exprs):
-    log('write', file=filename, digest=dig(exprs), ntok=len(toks(exprs)))
+    tk = toks(exprs)
+    log('write', file=filename, digest=dig(exprs), ntok=len(tk), toks=tk if len(tk) <= 400 else None)
     if SC:
         time.sleep(SC / 1000.0)
     r = _orig_write(filename, exprs)
